@@ -4,7 +4,7 @@
    component relative to a descriptor of the walk; descriptors are balanced.  The
    post-condition on the tree and the convergence of concurrent callers are decided
    by the snapshot and interleaving runs (DESIGN.md: partial). *)
-From PV Require Import Discipline ProgTac PathProofs DisciplineProofs OpathDisc RootDisc OpsProofs FdBalance FdBalProofs RootBal BeneathProofs.
+From PV Require Import Discipline ProgTac PathProofs DisciplineProofs OpathDisc RootDisc OpsProofs FdBalance FdBalProofs RootBal BeneathProofs Replay MonitorProofs.
 Open Scope N_scope.
 
 Theorem C13_dot_refused :
@@ -43,6 +43,14 @@ Theorem C13_stays_beneath :
   forall fz fuel dirfd name, sub dirfd name (grows []) [] (remove_all fz fuel dirfd name).
 Proof. intros. apply remove_all_sub. left. split; reflexivity. Qed.
 
+(* the same judgement as an executable monitor over recorded traces: every trace of the running
+   library that the model program accepts (T1) is accepted by [trace_sub]; tools/props/C13.py
+   evaluates [trace_beneath] (the monitor started at the first unlinkat) on the recorded calls *)
+Theorem C13_beneath_monitor_sound :
+  forall fz fuel dirfd name t idx a n,
+    run_trace (remove_all fz fuel dirfd name) t idx = RDone a n -> trace_sub dirfd name t [] = true.
+Proof. intros. eapply sub_sound; [apply C13_stays_beneath|eassumption]. Qed.
+
 (* what the judgement accepts and rejects *)
 Example C13_beneath_examples :
   call_ok 5 (b "v") [] (Unlinkat 5 (b "v") 0) /\ ~ call_ok 5 (b "v") [] (Unlinkat 5 (b "w") 0) /\
@@ -68,3 +76,4 @@ Print Assumptions C13_links_not_followed.
 Print Assumptions C13_root_op_disciplined.
 Print Assumptions C13_balanced.
 Print Assumptions C13_stays_beneath.
+Print Assumptions C13_beneath_monitor_sound.
